@@ -732,7 +732,7 @@ impl RustGenerator<'_> {
             }
 
             ast::ConstValue::String(v) => {
-                let val = v.value();
+                let val = v.value().replace('\r', "\\r");
                 codeln!(self, "pub const {name}: &{STR} = {val};");
             }
 
